@@ -147,7 +147,9 @@ func genSchema(r *rng.R, o *dops, pool []schema.Type, f *feat) *schema.Schema {
 		if r.Chance(1, 3) {
 			ck := schema.NewCheck().SetName(fmt.Sprintf("ck_%d", ti)).SetExpr(rng.Pick(r, []string{"(c0 > 0)", "c0 <> 'x'", `(c0 != "y")`, "c0 IS NOT NULL"}))
 			if o.name == "mysql" && r.Chance(1, 2) {
-				ck.AddAttrs(&mysql.Enforced{V: true})
+				// NOT ENFORCED as well (checkSpec writes `enforced = true` for any Enforced attribute)
+				ck.AddAttrs(&mysql.Enforced{V: r.Chance(1, 2)})
+				f.add("check-enforced")
 			}
 			t.AddChecks(ck)
 			f.add("check")
@@ -265,7 +267,7 @@ func indexAttrs(r *rng.R, o *dops, idx *schema.Index, t *schema.Table, f *feat) 
 			f.add("idx-type")
 		}
 		if r.Chance(1, 4) {
-			idx.AddAttrs(&postgres.IndexPredicate{P: rng.Pick(r, []string{"(c0 > 0)", "c0 <> 'x'"})})
+			idx.AddAttrs(&postgres.IndexPredicate{P: rng.Pick(r, []string{"(c0 > 0)", "c0 <> 'x'", "((c0))", "((c0 > 0))", "((c0 > 0) AND (c0 < 10))"})})
 			f.add("idx-where")
 		}
 		if r.Chance(1, 5) && len(t.Columns) > 1 {
@@ -335,6 +337,19 @@ func describe(s *schema.Schema) string {
 	return b.String()
 }
 
+// enforcedOf prints the mysql.Enforced attribute of a check: nil | true | false.
+func enforcedOf(c *schema.Check) string {
+	if c == nil {
+		return "nil"
+	}
+	for _, a := range c.Attrs {
+		if e, ok := a.(*mysql.Enforced); ok {
+			return fmt.Sprint(e.V)
+		}
+	}
+	return "nil"
+}
+
 func changeKinds(cs []schema.Change) string {
 	var ks []string
 	for _, c := range cs {
@@ -354,6 +369,8 @@ func changeKinds(cs []schema.Change) string {
 					sk += fmt.Sprintf("[%T]", y.A)
 				case *schema.DropAttr:
 					sk += fmt.Sprintf("[%T]", y.A)
+				case *schema.ModifyCheck:
+					sk += "[enforced:" + enforcedOf(y.From) + "->" + enforcedOf(y.To) + "]"
 				}
 				sub = append(sub, sk)
 			}
